@@ -43,6 +43,7 @@ type leg struct {
 }
 
 var checks = map[string]checkSpec{
+	"C16": {modDir: repoDir, pkg: ".", test: "TestVerifC16", shards: 8, quickS: 150, thoroS: 900, gomaxp: "2", floor: 300, minClass: 6},
 	"C19": {modDir: repoDir, pkg: "./cmd/gotelemetry", test: "TestVerifC19", shards: 8, quickS: 150, thoroS: 900, gomaxp: "2", floor: 2000, minClass: 8},
 	"C17": {modDir: repoDir, pkg: "./internal/chartconfig", test: "TestVerifC17", quickS: 150, thoroS: 900, gomaxp: "2", floor: 50000, minClass: 8,
 		extra: []leg{{repoDir, "./internal/configgen", "TestVerifC17Gen", 8}}},
